@@ -681,6 +681,45 @@ def rule_r13(prog, res):
                     srcs.append(unparse(kw[0]))
                 ok = bool(kw) and any('xsi:type' in s_ or 'XSI_TYPE' in s_
                                       for s_ in srcs)
+                # declarations lost when a detached subtree was moved are
+                # restored at the root from the interface's prefix map
+                top = [k.value for k in c.keywords if k.arg == 'top_nsmap']
+                tsrc = []
+                if top:
+                    tn = {x.id for x in ast.walk(top[0])
+                          if isinstance(x, ast.Name)}
+                    tsrc = [unparse(a.value) for a in walk_no_defs(f.node)
+                            if isinstance(a, ast.Assign) and any(
+                                isinstance(t, ast.Name) and t.id in tn
+                                for t in a.targets)] + [unparse(top[0])]
+                    # one hop through locals
+                    tn2 = {x.id for a in walk_no_defs(f.node)
+                           if isinstance(a, ast.Assign) and any(
+                               isinstance(t, ast.Name) and t.id in tn
+                               for t in a.targets)
+                           for x in ast.walk(a.value)
+                           if isinstance(x, ast.Name)}
+                    tsrc += [unparse(a.value) for a in walk_no_defs(f.node)
+                             if isinstance(a, ast.Assign) and any(
+                                 isinstance(t, ast.Name) and t.id in tn2
+                                 for t in a.targets)]
+                redeclared = any('interface.nsmap' in s_ or
+                                 'interface.prefmap' in s_ for s_ in tsrc)
+                if ok and not redeclared:
+                    where = '%s:%d' % (mod.relpath, c.lineno)
+                    res.ob('R13', where, '%s: cleanup without top_nsmap from '
+                           'the interface' % f.qualname, 'VIOLATED')
+                    res.finding('R13', '%s|moved-subtree-prefix-not-'
+                                'redeclared' % f.qualname, where, '%s keeps '
+                                'the xsi:type prefixes but does not declare '
+                                'them at the root (top_nsmap from '
+                                'interface.nsmap): Soap11 appends a Body '
+                                'built detached, and lxml drops a child\'s '
+                                'declaration when the new parent declares '
+                                'the same namespace with another prefix, so '
+                                'xsi:type="s0:Sub" inside an array member is '
+                                'unbound' % f.qualname)
+                    continue
                 where = '%s:%d' % (mod.relpath, c.lineno)
                 res.ob('R13', where, '%s: %s' % (f.qualname,
                                                  unparse(c)[:70]),
@@ -810,6 +849,41 @@ def rule_r15(prog, res):
               c02.rule_r6, prog, Result)
 
 
+# ------------------------------------------------------------------ R16
+def rule_r16(prog, res):
+    res.rule('R16', 'the parent of a class is recorded whether or not the '
+             'parent declares fields of its own (a field-less intermediate '
+             'class is a link of the chain)')
+    m = prog.module('spyne.model.complex')
+    f = m.functions.get('_get_type_info')
+    if f is None:
+        raise AnalysisError('_get_type_info', 'not found')
+    n = 0
+    for a in walk_no_defs(f.node):
+        if not (isinstance(a, ast.Assign) and any(
+                isinstance(t, ast.Subscript) and isinstance(
+                    t.slice, ast.Constant) and t.slice.value == '__extends__'
+                for t in a.targets)):
+            continue
+        n += 1
+        atoms = guardspec.atoms_at(a, f.node)
+        own_only = [t for t, pol in atoms if pol and 'len(' in t and
+                    '__extends__' not in t and 'flat' not in t]
+        where = '%s:%d' % (m.relpath, a.lineno)
+        res.ob('R16', where, '_get_type_info records the parent under %s' % [
+            t for t, pol in atoms if 'len(' in t or '__extends__' in t],
+            'VIOLATED' if own_only else 'ok')
+        if own_only:
+            res.finding('R16', '_get_type_info|parent-needs-own-fields',
+                        where, 'a base is recorded as __extends__ only under '
+                        '"%s", a test of the base\'s own fields: with class '
+                        'Mid(Base): pass; class Leaf(Mid) the parent of Leaf '
+                        'is Base, Mid.get_subclasses() stays empty, and a '
+                        'Leaf sent where Mid is declared loses its fields '
+                        'and its marker' % own_only[0])
+    res.floor('R16', 'stores of __extends__ in the metaclass helper', n, 1)
+
+
 def run(prog, res, tier):
     res.run_rule(rule_r1, prog, res)
     res.run_rule(rule_r2, prog, res)
@@ -826,6 +900,7 @@ def run(prog, res, tier):
     res.run_rule(rule_r13, prog, res)
     res.run_rule(rule_r14, prog, res)
     res.run_rule(rule_r15, prog, res)
+    res.run_rule(rule_r16, prog, res)
 
 
 _C = 'spyne/model/complex.py'
@@ -835,6 +910,22 @@ _I = 'spyne/interface/_base.py'
 _H = 'spyne/protocol/dictdoc/hier.py'
 
 MUTANTS = [
+    Mutant('fieldless-parent-skipped', 'R16', 'fire', 'spyne/model/complex.py',
+           in_func('_get_type_info',
+                   "            if (len(base_types) > 0 or\n                 "
+                   "     getattr(b, '__extends__', None) is not None) \\\n"
+                   "                                               and "
+                   "issubclass(b, ModelBase):",
+                   "            if len(base_types) > 0 and issubclass(b, "
+                   "ModelBase):"), 'parent-needs-own-fields'),
+    Mutant('cleanup-without-root-declarations', 'R13', 'fire',
+           'spyne/protocol/xml.py',
+           in_func('XmlDocument._cleanup_namespaces',
+                   "etree.cleanup_namespaces(document, top_nsmap=top_nsmap or "
+                   "None,\n                                                  "
+                   " keep_ns_prefixes=list(keep))",
+                   "etree.cleanup_namespaces(document, keep_ns_prefixes=list("
+                   "keep))"), 'moved-subtree-prefix-not-redeclared'),
     Mutant('array-items-bypass-from-element', 'R15', 'fire',
            'spyne/protocol/xml.py',
            in_func('XmlDocument.array_from_element',
